@@ -136,6 +136,16 @@ def ev(e, p, T):
                 q = r[1]
             if q == q0:
                 return (4, q, 0, 0, q)
+    if n == 'named':
+        return ev(a[1], p, T)
+    if n == 'tcrn':
+        r = ev(a[1], p, T)
+        w = a[0].name
+        caught = (r[0] in (2, 3)) if w in ('void', 'any_type') else (r[0] == 2) if w.endswith('verif_exc') else (r[0] == 3) if w.endswith('foreign_exc') else False
+        rr = ival(a[2])
+        if rr >= 0x80000000:
+            rr -= 0x100000000
+        return (2, p, 5000 + rr, p, p) if caught else r
     if n == 'tcrf':
         r = ev(a[1], p, T)
         w = a[0].name
@@ -157,7 +167,7 @@ def outcomes(e, K, N=3, samples=3000, seed=7, maxres=3):
         elif r[0] == 0:
             seen.add('fail')
         elif r[0] == 2:
-            seen.add('raise' if r[2] < 1000 else 'symraise')
+            seen.add('raise' if r[2] < 1000 else 'nested' if r[2] >= 4000 else 'symraise')
         elif r[0] == 3:
             seen.add('foreign')
     return seen
@@ -170,6 +180,7 @@ WRAP_HEAD = '''// generated wrapper TU — instantiates the real PEGTL templates
 %(includes)s
 using namespace tao::pegtl;
 using vf::sym;
+using vf::named;
 using vf::verif_exc;
 using vf::foreign_exc;
 %(preamble)s
@@ -231,7 +242,9 @@ def harness_text(case, N, K, doc, maxres=3, variants=('ar', 'ao', 'nr', 'no'), b
     if 'raise' in seen:
         reach.append('  REACH(e.r == 2 && e.id < 1000, "global failure raised by a must-rule");')
     if 'symraise' in seen:
-        reach.append('  REACH(e.r == 2 && e.id >= 1000, "exception from a sub-rule propagates");')
+        reach.append('  REACH(e.r == 2 && e.id >= 1000 && e.id < 4000, "exception from a sub-rule propagates");')
+    if 'nested' in seen:
+        reach.append('  REACH(e.r == 2 && e.id >= 4000, "exception converted by raise_nested");')
     if 'foreign' in seen:
         reach.append('  REACH(e.r == 3, "foreign exception propagates");')
     return HARNESS % {'N': N, 'K': K, 'maxres': maxres, 'bytes': 1 if bytes_ else 0, 'spec': g.text(), 'specfn': fn, 'calls': '\n'.join(calls), 'reach': '\n'.join(reach),
